@@ -81,6 +81,13 @@ def items(tier, seed):
         encs = range(len(ENCLOSINGS)) if (tier == "thorough" or sh["shape"] == "free" and sh["n"] <= 2) else [0, 1]
         for e in encs:
             out.append(Item("C09", "value_format", dict(sh, enc=e), budget_s=300 if tier == "quick" else 2400, obligation="H1-format-and-enclosing"))
+        # the same secret seen a second time in the run (shared lookup, first occurrence bare): same obligations on the repeat
+        for e in (range(1, len(ENCLOSINGS)) if (tier == "thorough" or sh["shape"] == "free" and sh["n"] <= 2) else [1]):
+            out.append(Item("C09", "value_format", dict(sh, enc=e, repeat=1), budget_s=300 if tier == "quick" else 2400, obligation="H1-format-and-enclosing-on-repeat"))
+    for kind in ("numeric", "hex"):
+        for order in ("j9-first", "clear-first"):
+            for n in ((1,) if tier == "quick" else (1, 2)):
+                out.append(Item("C09", "format_after_j9", dict(kind=kind, order=order, n=n), budget_s=600 if tier == "quick" else 2400, obligation="H3-format-with-shared-lookup"))
     import random
     fs, hv, st = c07._forms()
     rnd = random.Random(seed)
@@ -134,8 +141,13 @@ def value_format(item, res):
                 ex_.assume(core.in_set_expr(c, sec.HEX))
         sec.not_reserved(ex_, cs)
 
+    repeat = bool(item.params.get("repeat"))
+
     def fn(ex_):
-        return F.sir._anonymize_value(SStr.mk(list(raw)), models.SymDict(), reserved, "S")
+        lookup = models.SymDict()
+        if repeat:
+            F.sir._anonymize_value(SStr.mk(list(cs)), lookup, reserved, "S")
+        return F.sir._anonymize_value(SStr.mk(list(raw)), lookup, reserved, "S")
     run = sec.Run(fn, item.budget_s, res, assume)
     preds = sec.cell_predicates(list(cs))
     P = plain()
@@ -147,7 +159,7 @@ def value_format(item, res):
         text = "".join(chr(c) if isinstance(c, int) else chr(ev(p.model, c)) for c in raw)
         if p.exc is not None:
             res["violations"].append(dict(description="_anonymize_value raises %s" % type(p.exc).__name__, witness=dict(input=text), tags=["raises:%s" % type(p.exc).__name__],
-                                          replay=dict(replayer="secret_format", args=dict(a=text, head=head, tail=tail))))
+                                          replay=dict(replayer="secret_format", args=dict(a=text, head=head, tail=tail, repeat=repeat))))
             res["status"] = "violated"
             continue
         r = p.result
@@ -155,7 +167,7 @@ def value_format(item, res):
         # enclosing text restored around the replacement
         if not (rtext.startswith(head) and rtext.endswith(tail) and len(rtext) > len(head) + len(tail)):
             res["violations"].append(dict(description="enclosing text not kept around the replacement", witness=dict(input=text, output=rtext), tags=["enclosing"],
-                                          replay=dict(replayer="secret_format", args=dict(a=text, head=head, tail=tail))))
+                                          replay=dict(replayer="secret_format", args=dict(a=text, head=head, tail=tail, repeat=repeat))))
             res["status"] = "violated"
             continue
         core_r = rtext[len(head):len(rtext) - len(tail)]
@@ -177,12 +189,12 @@ def value_format(item, res):
             bad_text = "".join(chr(c) if isinstance(c, int) else chr(m.eval(c, model_completion=True).as_long()) for c in raw)
             res["violations"].append(dict(description="replacement %r is not in the format of the secret" % core_r, witness=dict(input=bad_text, output=rtext, output_formats=sorted(fmts)),
                                           tags=["format:%s" % c07._cell_name(bad_text[len(head):len(bad_text) - len(tail)])],
-                                          replay=dict(replayer="secret_format", args=dict(a=bad_text, head=head, tail=tail))))
+                                          replay=dict(replayer="secret_format", args=dict(a=bad_text, head=head, tail=tail, repeat=repeat))))
             res["status"] = "violated"
         else:
             raise core.Inconclusive("format query unknown")
         if nval < 25:
-            got = replayers.secret_run(P, dict(mode="value", a=text))
+            got = replayers.secret_run(P, dict(mode="value", a=text, prior=[text[len(head):len(text) - len(tail)]] if repeat else []))
             if not c07._same_modulo_env(got, rtext, r):
                 raise core.EngineError("concolic mismatch on %r: %r vs %r" % (text, got, rtext))
             nval += 1
@@ -266,4 +278,53 @@ def line_context(item, res):
     res["vacuity"] = "witnessed" if any(p.model is not None for p in run.paths) else "VACUOUS"
 
 
-HARNESSES = {"value_format": value_format, "line_context": line_context}
+def format_after_j9(item, res):
+    """H3: a clear-text secret seen after a $9$ value with the same plaintext (shared lookup) must still get a replacement of
+    its own format (all-digit stays all-digit, hex stays hex)."""
+    F = fam()
+    n, kind = item.params["n"], item.params["kind"]
+    vs = sec.secret_vars(n)
+    reserved = sec.reserved()
+    ex = Explorer(deadline=time.time() + item.budget_s)
+
+    def h(ex_):
+        sec.in_alphabet(ex_, vs, sec.DIG if kind == "numeric" else sec.HEX)
+        p = SStr.mk(list(vs))
+        X = F.jun.juniper_nonrandom_encrypt(p, "a")
+        lookup = models.SymDict()
+        first, second = (X, p) if item.params["order"] == "j9-first" else (p, X)
+        r1 = F.sir._anonymize_value(first, lookup, reserved, "S")
+        r2 = F.sir._anonymize_value(second, lookup, reserved, "S")
+        return (r1, r2)
+    paths = ex.explore(h)
+    harness.add_stats(res, ex)
+    from .. import replayers
+    P = plain()
+    seen = set()
+    for p in paths:
+        if p.model is None or p.exc is not None:
+            continue
+        text = "".join(chr(ev(p.model, c)) for c in vs)
+        r1, r2 = [ev(p.model, r) if not isinstance(r, str) else r for r in p.result]
+        clear_out = r2 if item.params["order"] == "j9-first" else r1
+        fmts = formats_of_output(clear_out)
+        res["finals"] += 1
+        want = "numeric" if text.isdigit() else "hex"
+        if want in fmts or (want == "hex" and "numeric" in fmts):
+            res["finals_unsat"] += 1
+            res["validated"] += 1
+            continue
+        tag = "format-after-j9:%s:%s" % (want, item.params["order"])
+        if tag in seen:
+            continue
+        seen.add(tag)
+        args = dict(plaintext=text, order=item.params["order"])
+        rr = replayers.secret_format_history(P, args)
+        res["violations"].append(dict(description="clear-text %s secret seen %s a $9$ value with the same plaintext is replaced by %r" % (want, "after" if item.params["order"] == "j9-first" else "before", clear_out),
+                                      witness=dict(plaintext=text, outputs=rr["observed"]), tags=[tag, "format-after-j9"], replay=dict(replayer="secret_format_history", args=args)))
+        res["status"] = "violated"
+    res["samples"].append(dict(kind=kind, n=n, order=item.params["order"], paths=len(paths)))
+    res["vacuity"] = "witnessed" if any(p.model is not None for p in paths) else "VACUOUS"
+
+
+HARNESSES = {"value_format": value_format, "line_context": line_context, "format_after_j9": format_after_j9}
